@@ -4,7 +4,7 @@ tier=${1:-quick}
 cd /verif
 for id in $(python3 -c "import json;print(' '.join(c['property_id'] for c in json.load(open('MANIFEST.json'))['checks']))"); do
   s=$(date +%s)
-  out=$(./check $id --tier $tier 2>&1); rc=$?
+  out=$(/usr/bin/time -f "MAXRSS_MB=%M" ./check $id --tier $tier 2>&1); rc=$?
   e=$(date +%s)
-  echo "$id rc=$rc $((e-s))s $(echo "$out" | grep -E '^RESULT|^VIOLATION|^KNOWN|BUILD-FAILED|HARNESS' | tr '\n' ' ' | cut -c1-300)"
+  echo "$id rc=$rc $((e-s))s $(echo "$out" | grep -E '^RESULT|^VIOLATION|BUILD-FAILED|HARNESS|MAXRSS' | tr '\n' ' ' | cut -c1-300)"
 done
